@@ -14,7 +14,8 @@
    consequence, the repaired code no longer has the access, and the thorough tier runs the
    harness under the race detector. *)
 From Coq Require Import ZArith List Bool Arith Lia.
-From Verif Require Import Pipeline.Model Pipeline.Exec Pipeline.ProofsBasic Pipeline.ProofsXml Pipeline.Witness.
+From Verif Require Import Pipeline.Model Pipeline.Exec Pipeline.ProofsBasic Pipeline.ProofsChain Pipeline.ProofsOrder
+  Pipeline.ProofsLive Pipeline.ProofsErr Pipeline.Theorems Pipeline.ProofsXml Pipeline.Witness.
 Import ListNotations.
 
 (* ---- 1. "returns without consuming the rest of the input" ---- *)
@@ -54,7 +55,64 @@ Theorem C07_no_true_scan_after_self_stop : forall c l s s' o, reach c s -> step 
 Proof. exact no_true_scan_after_self_stop. Qed.
 Print Assumptions C07_no_true_scan_after_self_stop.
 
-(* ---- 3. Err: nil only after a complete scan ---- *)
+(* ---- 3. Err ---- *)
+(* precedence, as Scanner.Err computes it: a recorded non-EOF error wins; a recorded EOF gives nil;
+   otherwise ErrScannerClosed after Close; otherwise the context's error after cancellation *)
+Theorem C07_err_precedence : forall s,
+  (s_err s <> 0%Z -> s_err s <> eEOF -> err_value s = s_err s) /\
+  (s_err s = eEOF -> err_value s = 0%Z) /\
+  (s_err s = 0%Z -> closed s = true -> err_value s = eClosed) /\
+  (s_err s = 0%Z -> closed s = false -> pcancelled s = true -> err_value s = eCtx) /\
+  (s_err s = 0%Z -> closed s = false -> pcancelled s = false -> err_value s = 0%Z).
+Proof. exact err_precedence. Qed.
+Print Assumptions C07_err_precedence.
+
+(* nil only after a complete scan: in every reachable state (every schedule, concurrent
+   cancellation included) Err() = nil means that the scan ended with EOF after delivering every
+   element, or that nothing has ended or stopped the scan yet *)
+Theorem C07_err_nil_only_complete : forall c s, wf_cfg c = true -> current c = true -> reach c s ->
+  c_hdr_err c <> eEOF -> err_value s = 0%Z ->
+  (s_err s = eEOF /\ delivered s = expected (c_inp c) /\ final_err (c_inp c) = eEOF) \/
+  (s_err s = 0%Z /\ closed s = false /\ pcancelled s = false).
+Proof. exact T_err_nil_only_complete. Qed.
+Print Assumptions C07_err_nil_only_complete.
+
+(* a recorded error is genuine: the header's error (nothing was started), the context's error
+   (and the context is cancelled), or the file's own final error after all elements before it *)
+Theorem C07_recorded_error_genuine : forall c s, wf_cfg c = true -> current c = true -> reach c s ->
+  s_err s <> 0%Z ->
+  (running s = false /\ s_err s = c_hdr_err c) \/
+  (s_err s = eCtx /\ cancelled s = true) \/
+  (delivered s = expected (c_inp c) /\ final_err (c_inp c) = s_err s).
+Proof. exact T_recorded_error. Qed.
+Print Assumptions C07_recorded_error_genuine.
+
+(* ---- 4. all goroutines terminate ---- *)
+(* [mu] = 3*rm(reader pc) + sum over workers (2*|input queue| + pc weight) + sm(serializer pc).
+   From a reachable state in which the internal context is cancelled, along ANY continuation — any
+   interleaving with the consumer, further API calls, any select resolution — the pipeline
+   goroutines take at most mu s more steps in total (a bound that does not involve the consumer,
+   the ordered queue or the rest of the input): reader <= 3, serializer <= 3, each worker <= 2 per
+   queued block + 2. *)
+Theorem C07_steps_after_cancel_bounded : forall c sched s, wf_cfg c = true -> current c = true ->
+  reach c s -> cancelled s = true -> ptaken c sched s + mu (fst (run c sched s)) <= mu s.
+Proof. exact T_steps_after_cancel_bounded. Qed.
+Print Assumptions C07_steps_after_cancel_bounded.
+
+(* while one of them is not done, one of them has an enabled step (no help from the consumer) *)
+Theorem C07_cancel_progress : forall c s, wf_cfg c = true -> reach c s -> running s = true ->
+  cancelled s = true -> all_done s = false ->
+  exists l s' o, is_pipeline l = true /\ step c l s = Some (s', o).
+Proof. exact T_cancel_progress. Qed.
+Print Assumptions C07_cancel_progress.
+
+(* hence all n + 2 goroutines reach Done (and the wg.Wait of Close returns, C02_no_deadlock) *)
+Theorem C07_goroutines_terminate : forall c s, wf_cfg c = true -> current c = true ->
+  reach c s -> running s = true -> cancelled s = true ->
+  exists sched, all_done (fst (run c sched s)) = true.
+Proof. exact T_goroutines_can_finish. Qed.
+Print Assumptions C07_goroutines_terminate.
+
 (* FALSE for the original Next/serializer when another goroutine cancels while Scan is blocked:
    Scan returns false, Err() returns nil, one of two objects was delivered.  Replayed on the real
    code by harness/cmd/c07 (mode 1 histories); fixed in 1677bc6. *)
